@@ -1,8 +1,65 @@
+/-
+  C14: the connection registry is a faithful map from descriptor to live connection.
+  Only property theorems and non-vacuity examples live here; helper lemmas are in
+  Gnet/Proofs/Registry.lean. Statements are never weakened to make a proof pass.
+-/
 import Gnet.Model.Registry
+import Gnet.Proofs.Registry
 namespace Gnet.Props.C14
 open Gnet
 
-theorem matrix_init_lookup (r c : Nat) (fd : Int) : (Matrix.init r c).getConn fd = none := by
-  simp [Matrix.init, Matrix.getConn]
+/-- The compacting matrix registry (any dimensions within the identifier's field widths):
+    for every valid history from the empty registry nothing panics and every lookup, count
+    and iteration agrees with the finite-map specification - lookups return exactly the most
+    recently registered, not yet removed connection; the count is the number of live
+    connections; an iteration visits every live connection exactly once, also when each
+    visited one is removed, after which the registry is empty and reusable (the history
+    simply continues). Relocation of entries is invisible.
+    At least two columns are required (the real constant is 65536): see
+    `matrix_cols_one_counterexample` below. -/
+theorem matrix_run_refines (rows cols : Nat) (hc : 1 < cols) (hr : rows ≤ 256) (hcc : cols ≤ 65536)
+    (ops : List RegOp) (hv : RegSpec.init.validRun (rows * cols) ops) :
+    ∃ m outs, (Matrix.init rows cols).run ops = some (m, outs) ∧ RegSpec.init.agreesRun ops outs :=
+  Proofs.Registry.matrix_run_refines rows cols hc hr hcc ops hv
+
+/-- The default map registry satisfies the same specification (no capacity limit). -/
+theorem map_run_refines (ops : List RegOp) (cap : Nat) (hv : RegSpec.init.validRun cap ops) :
+    RegSpec.init.agreesRun ops (RegMap.init.run ops).2 :=
+  Proofs.Registry.map_run_refines ops cap hv
+
+/-- the specification's lookup really is "most recently registered and not yet removed":
+    keys of a valid history are distinct -/
+theorem spec_keys_distinct (cap : Nat) (ops : List RegOp) (hv : RegSpec.init.validRun cap ops) :
+    ((ops.foldl RegSpec.step RegSpec.init).live.map (·.1)).Nodup :=
+  Proofs.Registry.spec_keys_distinct cap ops hv
+
+/-- Why `1 < cols` is needed: with a single column every row holds one cell, so removing a
+    connection that is NOT the last one empties its row; `delConn` then takes its early return
+    "the deleted conn is the last one" (row dropped) without compacting, the cursor goes back
+    to the hole, and the second following `addConn` overwrites a cell that is still occupied.
+    On a 3 x 1 matrix this valid history makes `get 11` return connection 3 instead of 1.
+    (In gnet the column count is a constant far above 1, so this is an artefact of the
+    model's parameter, not a defect of the Go code.) -/
+theorem matrix_cols_one_counterexample :
+    RegSpec.init.validRun (3 * 1)
+      [.conn 0 10, .add 0 0, .conn 1 11, .add 1 0, .del 0, .conn 2 12, .add 2 0, .conn 3 13, .add 3 0, .get 11] ∧
+    ((Matrix.init 3 1).run
+      [.conn 0 10, .add 0 0, .conn 1 11, .add 1 0, .del 0, .conn 2 12, .add 2 0, .conn 3 13, .add 3 0, .get 11]).map (·.2)
+      = some [.unit, .unit, .unit, .unit, .unit, .unit, .unit, .unit, .unit, .found (some 3)] ∧
+    (([RegOp.conn 0 10, .add 0 0, .conn 1 11, .add 1 0, .del 0, .conn 2 12, .add 2 0, .conn 3 13, .add 3 0].foldl
+      RegSpec.step RegSpec.init).lookup 11) = some 1 := by
+  refine ⟨?_, ?_, ?_⟩
+  · simp [RegSpec.validRun, RegSpec.valid, RegSpec.step, RegSpec.init]
+  · decide
+  · decide
+
+-- non-vacuity: a valid history that relocates an entry across a row boundary (2 x 2 matrix)
+example : RegSpec.init.validRun 4
+    [.conn 0 10, .add 0 0, .conn 1 11, .add 1 0, .conn 2 12, .add 2 0, .del 0, .get 12, .iter true, .count] := by
+  simp [RegSpec.validRun, RegSpec.valid, RegSpec.step, RegSpec.init]
+example : ((Matrix.init 2 2).run
+    [.conn 0 10, .add 0 0, .conn 1 11, .add 1 0, .conn 2 12, .add 2 0, .del 0, .get 12, .iter true, .count]).map (·.2)
+    = some [.unit, .unit, .unit, .unit, .unit, .unit, .unit, .found (some 2), .visited [2, 1], .count 0] := by
+  decide
 
 end Gnet.Props.C14
